@@ -159,6 +159,7 @@ def judge(chk, c, obs, dropped):
     key = "Ord" if "Ord" in td.traits else "PartialOrd"
     n = len(c.vals)
     table = {}
+    evmap = {}
     mev = 0
     for op, i, j, res, ev in o.recs:
         if op in ("pcmp", "pcmpself") and len(res) > 1:
@@ -176,6 +177,7 @@ def judge(chk, c, obs, dropped):
                 return
             continue
         table[(op, i, j)] = BH.ORD[res[0]]
+        evmap[(op, i, j)] = ev
         prob = events_problem(td, c.vals[i], c.vals[j], key, ev)
         if prob:
             chk.violation("evaluation|%s" % td.kind, "%s: %s\na = %s\nb = %s\nevents: %s\n%s" % (op, prob, c.vals[i], c.vals[j], ev, c.text), files)
@@ -189,6 +191,15 @@ def judge(chk, c, obs, dropped):
     if len(table) != len(ops) * n * n:
         chk.inconc("incomplete-output")
         return
+    if len(ops) == 2:
+        # both educed: partial_cmp IS Some(cmp): the same calls reach the fields (a field type's own partial_cmp is never asked)
+        for i in range(n):
+            for j in range(n):
+                if evmap.get(("pcmp", i, j)) != evmap.get(("cmp", i, j)):
+                    chk.violation("partial-cmp-is-not-cmp|%s" % td.kind, "PartialOrd and Ord are educed together, yet partial_cmp(a, b) does not do what "
+                                  "cmp(a, b) does\npartial_cmp events: %s\ncmp events:         %s\na = %s\nb = %s\n%s"
+                                  % (evmap.get(("pcmp", i, j)), evmap.get(("cmp", i, j)), c.vals[i], c.vals[j], c.text), files)
+                    return
     for i in range(n):
         for j in range(n):
             want = expected(td, c.vals[i], c.vals[j], key, key != "Ord")
